@@ -16,7 +16,12 @@ type handler func(args string) string
 
 var commands = map[string]handler{}
 
-func register(name string, h handler) { commands[name] = h }
+func register(name string, h handler) {
+	if _, dup := commands[name]; dup {
+		panic("implrun: command registered twice: " + name)
+	}
+	commands[name] = h
+}
 
 func safe(h handler, args string) (out string) {
 	defer func() {
